@@ -110,6 +110,9 @@ pub struct Spec {
     pub types: Vec<ElementType>,
     /// element types whose NAME has another type in other versions (a parent lists the name twice)
     pub sw: HashSet<ElementType>,
+    /// element types with a sub element whose index path has length >= 3 (a group nested in a group: the version mask of
+    /// such a sub element is read from the INNER group's version table)
+    pub deep: HashSet<ElementType>,
 }
 
 fn spec_ptr(s: &'static CharacterDataSpec) -> usize {
@@ -148,12 +151,25 @@ impl Spec {
                 }
             }
         }
+        // nested groups: enumerated from the specification (find_sub_element returns the index path)
+        let mut deep: HashSet<ElementType> = HashSet::new();
+        for t in &types {
+            for (n, _, m, _) in t.sub_element_spec_iter() {
+                for v in vers.iter().map(|v| *v as u32).filter(|v| m & v != 0) {
+                    if let Some((_, ix)) = t.find_sub_element(n, v) {
+                        if ix.len() >= 3 {
+                            deep.insert(*t);
+                        }
+                    }
+                }
+            }
+        }
         // enumeration values are listed once per (specification, item) and carrier kind: the table entry is the spec's
         let mut seen_av: HashSet<(usize, u16, u16)> = HashSet::new();
         let mut seen_tv: HashSet<(usize, u16)> = HashSet::new();
         for t in &types {
             for (k, (n, et, m, _)) in t.sub_element_spec_iter().enumerate() {
-                if m != FULL || sw.contains(t) {
+                if m != FULL || sw.contains(t) || deep.contains(t) {
                     entries.push(Kind::Sub(*t, k, n, et, m));
                 }
             }
@@ -190,7 +206,7 @@ impl Spec {
                 }
             }
         }
-        Spec { vers, reach, entries, types, sw }
+        Spec { vers, reach, entries, types, sw, deep }
     }
     fn vidx(&self, v: u32) -> usize {
         self.vers.iter().position(|x| *x as u32 == v).unwrap()
@@ -692,6 +708,8 @@ pub fn stats_main(_args: &[String]) {
         }
     }
     println!("STAT switching_pairs={} switching_types={}", npairs, sw.len());
+    let spd = Spec::build();
+    println!("STAT nested_group_types={} entries={}", spd.deep.len(), spd.entries.iter().filter(|e| spd.deep.contains(&e.carrier())).count());
     let mut c: BTreeMap<&str, (usize, usize)> = BTreeMap::new();
     for e in &sp.entries {
         let x = c.entry(e.tag()).or_insert((0, 0));
@@ -832,7 +850,8 @@ pub fn sweep_main(args: &[String]) {
         // every entry of a version-switching element type is always taken: these are the only places where the type the
         // check recalculates differs from the stored one (attribute sets, sub-elements and value specs of the two types differ)
         for (k, e) in sp.entries.iter().enumerate() {
-            if sp.sw.contains(&e.carrier()) {
+            // ... and every sub element of a type with groups nested in groups (index paths of length >= 3)
+            if sp.sw.contains(&e.carrier()) || sp.deep.contains(&e.carrier()) {
                 picked.insert(k);
             }
         }
